@@ -551,9 +551,10 @@ func (f *Frame) applyContract(sig *types.Signature, ct *Contract, env map[string
 	s.fact(app(">=", na, allocBefore))
 	post["$alloc"] = na
 	view := lp.view()
-	for key := range mods {
+	for _, key := range sortedModKeys(mods) {
 		// force a new version of every modified key (and of its sub-keys already known)
-		for k, srt := range s.sorts {
+		for _, k := range sortedKeys(s.sorts) {
+			srt := s.sorts[k]
 			if k == key || strings.HasPrefix(k, key+".") {
 				view(k, srt)
 			}
@@ -588,7 +589,8 @@ func (f *Frame) applyContract(sig *types.Signature, ct *Contract, env map[string
 		s.fact(implies(f.cur.reach, t))
 	}
 	// slices stored in the locations the callee may modify refer to memory that exists after the call
-	for key, locs := range mods {
+	for _, key := range sortedModKeys(mods) {
+		locs := mods[key]
 		if s.sorts[key] == arrSort("Int", "Slice") {
 			arr := s.hget(post, key, s.sorts[key])
 			for _, l := range locs {
